@@ -230,10 +230,16 @@ func runPPRecv(c ppCase, idx int) (map[string]any, error) {
 	if src != nil {
 		ripRange = src.IP.String()
 	}
+	lipRange := "203.0.113.98/32"
+	if dst != nil {
+		lipRange = dst.IP.String()
+	}
 	// one outer route (so that no later route can be chosen while its matcher is still undecided);
 	// behind proxy_protocol a subroute holds a remote_ip matcher on the declared source and the consumer
 	inner := []map[string]any{
 		{"match": []map[string]any{{"remote_ip": map[string]any{"ranges": []string{ripRange}}}}, "handle": []map[string]any{{"handler": "verif_h", "k": "flag", "l": 7}}},
+		// ... and a local_ip matcher on the declared destination
+		{"match": []map[string]any{{"local_ip": map[string]any{"ranges": []string{lipRange}}}}, "handle": []map[string]any{{"handler": "verif_h", "k": "flag", "l": 8}}},
 		{"handle": []map[string]any{{"handler": "verif_h", "k": "termraw", "l": 2, "r": 2}}},
 	}
 	route1 := map[string]any{"handle": []map[string]any{{"handler": "verif_h", "k": "mark", "l": 1, "r": 1}, h, {"handler": "verif_h", "k": "addrrec"},
@@ -280,7 +286,7 @@ func runPPRecv(c ppCase, idx int) (map[string]any, error) {
 		herr = compiled.Handle(cx)
 	}()
 	obs := map[string]any{"start": -1, "hdrlen": len(hdr), "slen": len(stream), "got": 0, "intact": false,
-		"remote": "none", "local": "none", "phRemote": "none", "phLocal": "none", "ripMatch": false, "panic": panicked}
+		"remote": "none", "local": "none", "phRemote": "none", "phLocal": "none", "ripMatch": false, "lipMatch": false, "lipAsked": c.Layout != "flat", "panic": panicked}
 	if herr != nil {
 		obs["err"] = herr.Error()
 	}
@@ -296,7 +302,11 @@ func runPPRecv(c ppCase, idx int) (map[string]any, error) {
 				obs["phLocal"] = classify(a, src, dst, sockRemote, ppSockLocal)
 			}
 		case "Flag":
-			obs["ripMatch"] = true
+			if l, _ := e["l"].(int); l == 8 {
+				obs["lipMatch"] = true
+			} else {
+				obs["ripMatch"] = true
+			}
 		case "Term":
 			got := len(rec.Raw)
 			start := len(stream) - got
